@@ -4,13 +4,33 @@ include tree (under /verif/build/mut, removed afterwards), run the property's qu
 printed VIOLATION.  Writes mutants/RESULTS.tsv (development-time evidence for DESIGN.md §6; not a registered check)."""
 import sys, os, glob, subprocess, shutil, time
 VERIF = os.path.dirname(os.path.dirname(os.path.abspath(__file__)))
-props = sys.argv[1:]
+args = sys.argv[1:]
+SEEDED_FIRST = '--seeded-first' in args
+SKIP_TAG = next((a.split('=', 1)[1] for a in args if a.startswith('--skip-done=')), None)   # skip rows already measured with this tag
+TAG = next((a.split('=', 1)[1] for a in args if a.startswith('--tag=')), '')
+props = [a for a in args if not a.startswith('--')]
 rows = []
-pats = sorted(glob.glob(os.path.join(VERIF, 'mutants', 'C*_*.patch'))) + sorted(glob.glob(os.path.join(VERIF, 'seeded', '*', 'patch.diff')))
+res = os.path.join(VERIF, 'mutants', 'RESULTS.tsv')
+def load():
+    old = {}
+    if os.path.exists(res):
+        for l in open(res):
+            f = l.rstrip('\n').split('\t')
+            if len(f) >= 3: old[f[1]] = f
+    return old
+def record(r):
+    old = load(); old[r[1]] = [str(x) for x in r]
+    with open(res + '.tmp', 'w') as fh:
+        for k in sorted(old): fh.write('\t'.join(old[k]) + '\n')
+    os.replace(res + '.tmp', res)
+_m, _s = sorted(glob.glob(os.path.join(VERIF, 'mutants', 'C*_*.patch'))), sorted(glob.glob(os.path.join(VERIF, 'seeded', '*', 'patch.diff')))
+pats = _s + _m if SEEDED_FIRST else _m + _s
+done = load()
 for pth in pats:
     name = os.path.basename(pth) if pth.endswith('.patch') else 'seeded/' + os.path.basename(os.path.dirname(pth))
     pid = (os.path.basename(pth) if pth.endswith('.patch') else os.path.basename(os.path.dirname(pth)))[:3]
     if props and pid not in props: continue
+    if SKIP_TAG and name in done and len(done[name]) >= 6 and done[name][5] == SKIP_TAG: continue
     scratch = os.path.join(VERIF, 'build', 'mut', name.replace('/', '_'))
     shutil.rmtree(scratch, ignore_errors=True)
     os.makedirs(scratch)
@@ -19,7 +39,7 @@ for pth in pats:
     if a.returncode != 0:
         a = subprocess.run(['patch', '-p1', '-d', scratch, '-i', pth], stdout=subprocess.PIPE, stderr=subprocess.STDOUT, text=True)
     if a.returncode != 0:
-        rows.append((pid, name, 'PATCH-DOES-NOT-APPLY', '', 0)); shutil.rmtree(scratch, ignore_errors=True); print(rows[-1]); continue
+        rows.append((pid, name, 'PATCH-DOES-NOT-APPLY', '', 0, TAG)); record(rows[-1]); shutil.rmtree(scratch, ignore_errors=True); print(rows[-1], flush=True); continue
     t0 = time.time()
     r = subprocess.run([sys.executable, os.path.join(VERIF, 'tools', 'vcheck.py'), pid, '--tier', 'quick', '--repo', scratch, '--no-evidence'],
                        cwd=VERIF, stdout=subprocess.PIPE, stderr=subprocess.STDOUT, text=True)
@@ -27,16 +47,8 @@ for pth in pats:
     viol = [l for l in out.splitlines() if l.startswith('VIOLATION')]
     sigs = sorted(set(l.split('sig=')[1].split(' ')[0] for l in out.splitlines() if l.strip().startswith('case=') and 'sig=' in l))
     verdict = 'CAUGHT' if (r.returncode == 1 and viol) else ('BUILD-ERROR' if 'BUILD-ERROR' in out else 'MISSED rc=%d' % r.returncode)
-    rows.append((pid, name, verdict, ','.join(sigs)[:200], round(time.time() - t0)))
+    rows.append((pid, name, verdict, ','.join(sigs)[:200], round(time.time() - t0), TAG))
+    record(rows[-1])
     print(rows[-1], flush=True)
     shutil.rmtree(scratch, ignore_errors=True)
     shutil.rmtree(os.path.join(VERIF, 'replays', pid), ignore_errors=True)
-res = os.path.join(VERIF, 'mutants', 'RESULTS.tsv')
-old = {}
-if os.path.exists(res):
-    for l in open(res):
-        f = l.rstrip('\n').split('\t')
-        if len(f) >= 3: old[f[1]] = f
-for r in rows: old[r[1]] = [str(x) for x in r]
-with open(res, 'w') as fh:
-    for k in sorted(old): fh.write('\t'.join(old[k]) + '\n')
